@@ -102,6 +102,20 @@ check('C13',
       'machine-checked proof in Coq (R) of a carrier-generic model + binary64 instance evaluated against the code',
       'DESIGN.md 5 C13')
 
+check('C19',
+      'Coq theorems (Props/C19.v): the Hilbert weights exactly as the code assigns them (last write wins) satisfy h(k) + h((N-k) mod N) = 2 '
+      'for EVERY N >= 1 and every bin (DC / Nyquist of both parities, N = 1, 2, 3) - axiom-free over Z; the output has ceil(N/2) samples '
+      'and sample m reads analytic sample 2m < N; over the complex numbers (Coquelicot C, DFT algebra of Lib/Dft.v with its inversion '
+      'theorem) the real part of the analytic signal of every real input equals the input for every N >= 1; (-i)^(2m) = (-1)^m, hence '
+      '(-1)^m Re(out m) = x(2m); linearity over an abstract carrier; dtype rule. The transform is ONE carrier-generic Gallina term: '
+      'its binary64 instance is evaluated by vm_compute against the implementation on lanes of every case. PARTIAL: tone w -> w - N/4 and '
+      'axis independence are decided by the correspondence run and an independent O(N^2) longdouble oracle (scipy.fft = DFT is an assumption).',
+      'Trusted: Coq kernel, stdlib real-number axioms (sig_forall_dec, sig_not_dec, functional_extensionality_dep, classic), kernel float '
+      'primitives (executing instance), scipy.fft = mathematical DFT (validated numerically on every run), float16 input computed in '
+      'single precision by scipy. The real-VDIF reader path is exercised by C11.',
+      'machine-checked proof in Coq (Z, C) of a carrier-generic model + binary64 instance evaluated against the code + numerical oracle',
+      'DESIGN.md 5 C19')
+
 ALL = [f'C{i:02d}' for i in range(1, 21)]
 
 def main():
